@@ -155,7 +155,7 @@ package types
 
 //@ func (*WorkloadResource) Add
 //@   requires w != nil && w1 != nil && w != w1 && smallWl(w) && smallWl(w1)
-//@   requires (w.CPUMap != nil || card(w1.CPUMap) == 0) && w.CPUMap != w1.CPUMap && w.NUMAMemory != w1.NUMAMemory
+//@   requires (w.CPUMap != nil || card(w1.CPUMap) == 0) && w.CPUMap != w1.CPUMap && (w.NUMAMemory != w1.NUMAMemory || w.NUMAMemory == nil)
 //@   modifies w, w.CPUMap, w.NUMAMemory
 //@   ensures[C08.wl-add] w.CPURequest == old(w.CPURequest) + w1.CPURequest && w.MemoryRequest == old(w.MemoryRequest) + w1.MemoryRequest
 //@        && w.CPUMap == old(w.CPUMap)
@@ -208,12 +208,11 @@ package types
 //@   trusted
 //@   requires w != nil
 //@   modifies w
-//@   ensures (w.CPUMap == nil || allocated(w.CPUMap)) && (w.NUMAMemory == nil || allocated(w.NUMAMemory))
-//@   # C15: the decoded record is a function of the raw record (wlCPU/wlNUMA/wlMem/wlCPUReq name what the decoder yields),
-//@   # and the decoder builds new maps
+//@   # the decoder builds new maps
+//@   ensures (w.CPUMap == nil || (allocated(w.CPUMap) && fresh(w.CPUMap))) && (w.NUMAMemory == nil || (allocated(w.NUMAMemory) && fresh(w.NUMAMemory)))
+//@   # C15: the decoded record is a function of the raw record (wlCPU/wlNUMA/wlMem/wlCPUReq name what the decoder yields)
 //@   ensures[C15] result == nil ==> (forall k string :: w.CPUMap[k] == wlCPU(rawParams, k)) && (forall k string :: w.NUMAMemory[k] == wlNUMA(rawParams, k))
-//@                && w.MemoryRequest == wlMem(rawParams) && w.CPURequest == wlCPUReq(rawParams)
-//@                && (w.CPUMap == nil || fresh(w.CPUMap)) && (w.NUMAMemory == nil || fresh(w.NUMAMemory)) && w.CPUMap != w.NUMAMemory
+//@                && w.MemoryRequest == wlMem(rawParams) && w.CPURequest == wlCPUReq(rawParams) && w.CPUMap != w.NUMAMemory
 
 //@ # what WorkloadResource.Parse decodes from one raw workload record (uninterpreted functions of the record)
 //@ ufun wlCPU(raw ref, k string) int
